@@ -8,6 +8,8 @@ submit futures, lock grants) are checked against that state.
 
 Families (helpers in hsverif/c12_*.py):
   single    PaxosNode, 3-5 nodes, 1-3 proposers (+ re-proposals), retries; 12 % fault-free liveness cases
+  single_adv scripted adversary for PaxosNode: stale lower-ballot Accept reaches an acceptor after a value was chosen,
+            third proposer's phase-1 quorum meets the choosing quorum in that acceptor only (random roles / timing)
   flex      FlexiblePaxosNode, every (Q1, Q2) with Q1 + Q2 > N
   multi     MultiPaxosNode, take-over, heartbeats
   election  LeaderElection x {Bully, Ring, Randomized}, member views full / converging / join, crashes
@@ -33,6 +35,9 @@ RULE = (
     "12-15 % of the Paxos cases are fault-free (loss-free, every delay <= max_delay) and carry the bounded-liveness "
     "clause: single proposer decided at every node within 6 message delays; command submitted to an established "
     "leader applied at every node within 3 heartbeat intervals + 6 message delays. "
+    "single_adv = scripted per-message rules (one very slow link, targeted drops) building the stale-Accept-after-choice "
+    "schedule with random roles and timing; non-trivial when a lower-ballot Accept reached an acceptor that had already "
+    "answered Accepted for a higher ballot and two proposers each collected an Accepted quorum. "
     "Non-trivial: single = >= 2 proposals and two proposers whose phase 1 was open at the same time (measured from the "
     "Prepare / Accept sends seen on the wire), fault-free single = every node decided; flex / multi = >= 2 distinct "
     "nodes became leader and >= 1 slot was reported decided (fault-free: >= 1 slot decided); election = >= 2 "
@@ -55,6 +60,7 @@ MUST_OBSERVE = ["decisions_checked", "futures_checked", "applies_checked", "repo
 
 FAMILIES = {
     "single": Family("single", c12_single.gen_single, c12_single.run_single, case_timeout=30.0),
+    "single_adv": Family("single_adv", c12_single.gen_single_adv, c12_single.run_single, case_timeout=30.0),
     "flex": Family("flex", c12_log.gen_log("flex"), c12_log.run_log("flex"), case_timeout=30.0),
     "multi": Family("multi", c12_log.gen_log("multi"), c12_log.run_log("multi"), case_timeout=30.0),
     "election": Family("election", c12_election.gen_election, c12_election.run_election, case_timeout=30.0),
@@ -62,6 +68,6 @@ FAMILIES = {
 }
 
 BUDGET = {
-    "quick": {"single": 6000, "flex": 400, "multi": 400, "election": 600, "lock": 2000},
-    "thorough": {"single": 400000, "flex": 40000, "multi": 40000, "election": 30000, "lock": 200000},
+    "quick": {"single": 6000, "single_adv": 400, "flex": 400, "multi": 400, "election": 600, "lock": 2000},
+    "thorough": {"single": 400000, "single_adv": 20000, "flex": 40000, "multi": 40000, "election": 30000, "lock": 200000},
 }
